@@ -70,6 +70,10 @@ PROGRAMS = [
     "class G:\n    def m(self):\n        \"\"\"Return \\\n        more.\"\"\"\n        s = 'p \\\n        q'\n        'r \\\n        t'\n        return s",
     # 53: parameter lists that start with the bare '*' / have only keyword-only parameters
     "def f(*, a, b=1): pass\ng = lambda *, k: k\nasync def h(p, /, *, q): pass",
+    # 54: annotated assignments whose targets are parenthesized in the source (the 'simple' flag depends on the parentheses)
+    "(a): int = 1\n(b.c): d\n(\n e\n): f = 2\ng: h",
+    # 55: nodes without a position of their own (match_case) at the end of a block that is not the last statement of its parent
+    "def f(cmd):\n    match cmd:\n        case 1:\n            a\n        case 2:\n            b\n    return cmd",
 ]
 
 for _p in PROGRAMS:
